@@ -53,6 +53,7 @@ class _Env:
 
     def __init__(self, ns=None, draws=None, budget=400, symbolic=True):
         self.ns, self.draws, self.budget, self.symbolic = ns, draws, budget, symbolic
+        self.left = []
 
     def __enter__(self):
         import dpapi_ng._client as CL
@@ -283,3 +284,26 @@ def impl_roundtrip_env(arg, symbolic=True):
         except Exception as exc:  # noqa: BLE001
             pt = classify(exc)
     return [wire, pt]
+
+
+def impl_protect_seq(arg, symbolic=True):
+    """consecutive protect calls on ONE KeyCache; every os.urandom call is served from the case's draws, in order"""
+    import dpapi_ng
+
+    from .core import classify
+
+    roots, calls = arg
+    cache = mk_cache(roots)
+    outs = []
+    for draws, data, sid, rkid, ns in calls:
+        rid = None if rkid is None else uuid.UUID(bytes_le=bytes(rkid))
+        with _Env(ns=ns, draws=draws, symbolic=symbolic) as env:
+            try:
+                blob = dpapi_ng.ncrypt_protect_secret(bytes(data), sid, root_key_identifier=rid, cache=cache)
+                if env.left:
+                    outs.append(Err("TypeError"))  # fewer draws than the model: randomness was reused
+                else:
+                    outs.append(blob)
+            except Exception as exc:  # noqa: BLE001
+                outs.append(classify(exc))
+    return outs
